@@ -145,7 +145,7 @@ def handle (args : List String) : String :=
   | "run" :: depth :: nosb :: roots :: all :: objToks =>
     match depth.toNat?, Proto.natList roots, Proto.natList all, objToks.mapM parseObj with
     | some d, some r, some a, some objs =>
-      let s : Sys := { objs := objs, all := a, roots := r, depth := d, nosidebar := nosb == "1" }
+      let s : Sys := { objs := objs.toArray, all := a, roots := r, depth := d, nosidebar := nosb == "1" }
       if idsInRange s then answer s else "bad-ids"
     | _, _, _, _ => "bad-op"
   | _ => "bad-op"
